@@ -314,7 +314,8 @@ class World:
 
 
 class Only:
-    """Policy: run only the given thread records (lowest id first); never tick."""
+    """Policy: run only the given thread records (lowest id first); advance time only when one of
+    them waits for nothing but time."""
 
     def __init__(self, recs):
         self.recs = recs
@@ -323,6 +324,8 @@ class Only:
         for r in runnable:
             if r in self.recs:
                 return r
+        if any(r in self.recs for r in timed):
+            return vsched.TICK      # e.g. the loop's 10 ms relaxation wait on out_queue
         raise _Stuck()
 
 
@@ -363,7 +366,8 @@ def execute(sc, mutant=None):
         rng = random.Random(sc.get('seed', 0))
         policy = vsched.RandomPolicy(rng) if sc.get('free') and sc['free'].get('policy') == 'random' \
             else vsched.FifoPolicy()
-        with vsched.scheduler(policy, max_steps=5000000) as s:
+        budget = 400000 if 'steps' in sc else 300000 + 400 * len(sc['free']['outcomes'])
+        with vsched.scheduler(policy, max_steps=budget) as s:
             w.sched = s
             drv = rd.RadioDriver()
             w.drv = drv
@@ -381,6 +385,7 @@ def execute(sc, mutant=None):
             dead = [t for t in rep if t['status'] == 'dead']
             quiet = w.senders_left == 0 and (w.parked_at() == 'tx' or w.radio_blocked()) \
                 and not dead and not w.wedged
+            wedged = bool(w.wedged or dead or s.steps >= s.max_steps)
             inq = drv.in_queue.qsize()
             final_st = w.st()
     finally:
@@ -390,7 +395,7 @@ def execute(sc, mutant=None):
         if undo:
             undo()
     tr = {'mode': sc['mode'], 'tail': list(sc['tail']), 'deny': list(sc['deny']), 'retries': retries,
-          'negatt': NEGATT, 'ev': w.ev, 'fin': {'quiet': bool(quiet), 'inq': inq, 'st': final_st,
+          'negatt': NEGATT, 'ev': w.ev, 'fin': {'quiet': bool(quiet), 'wedged': wedged, 'inq': inq, 'st': final_st,
                                                'dead': [t.get('traceback', '')[-400:] for t in dead]}}
     return tr, info
 
@@ -458,7 +463,14 @@ def _run_steps(w, s, sc, info):
     steps = sc['steps']
     director = steps if callable(steps) else None
     i = 0
+    nsteps = stalled = 0
     while True:
+        # hard budgets: a check must terminate on ANY tree.  When the code under test stops making
+        # progress the execution is ended, marked wedged, and the monitor judges what was recorded
+        nsteps += 1
+        if nsteps > 20000 or stalled >= 25 or s.steps >= s.max_steps:
+            w.wedged = True
+            break
         if director:
             st = director(w)
         else:
@@ -529,6 +541,7 @@ def _run_steps(w, s, sc, info):
             run(Only([pz]), lambda: pz.finished)
             state['pauser'] = None
         info['executed'].append(list(st))
+        stalled = 0 if ok else stalled + 1
         if not ok:
             info['drift'] += 1
         if sc.get('project'):
@@ -620,7 +633,7 @@ def execute_multi(sc, mutant=None):
     try:
         rd.set_retries_before_disconnect(sc['links'][0]['retries'])
         rng = random.Random(sc.get('seed', 0))
-        with vsched.scheduler(vsched.RandomPolicy(rng), max_steps=5000000) as s:
+        with vsched.scheduler(vsched.RandomPolicy(rng), max_steps=400000 + 600 * sum(len(l['free']['outcomes']) for l in sc['links'])) as s:
             for k, (w, l) in enumerate(zip(worlds, sc['links'])):
                 w.sched = s
                 LogQueue.world = w
@@ -641,6 +654,7 @@ def execute_multi(sc, mutant=None):
                                     (w.senders_left == 0 or w.wedged) for w in worlds))
             dead = [t for t in s.report() if t['status'] == 'dead']
             fins = [{'quiet': bool(w.senders_left == 0 and w.radio_blocked() and not dead and not w.wedged),
+                     'wedged': bool(w.wedged or dead or s.steps >= s.max_steps),
                      'inq': w.drv.in_queue.qsize(), 'st': w.st(),
                      'dead': [t.get('traceback', '')[-400:] for t in dead]} for w in worlds]
     finally:
@@ -722,10 +736,14 @@ DENY_REPLIES = [[255, 5, 0], [255, 5, 1, 0], [243, 5, 1], [255, 5], [255, 1, 44]
 
 
 def up_pk(i):
+    if i % 4 == 3:          # a packet without data bytes
+        return [((3 + i % 5) << 4) | 0x0C | (i % 4)]
     return [((3 + i % 5) << 4) | 0x0C | (i % 4), i % 256, (i // 256) % 256]
 
 
 def dn_pk(j):
+    if j % 3 == 2:          # header-only downlink packet
+        return [((5 + j % 3) << 4) | (j % 4)]
     return [((5 + j % 3) << 4) | (j % 4), (100 + j) % 256, (j // 256) % 256, 7]
 
 
@@ -1495,6 +1513,6 @@ def main(tier, seed, replay=None):
         if not rejected:
             raise common.MachineryError('trace spec accepted corrupted trace: %s' % name)
     lap('4c corrupted traces')
-    if stats['not_quiet']:
-        raise common.MachineryError('%d executions did not end quiescent (harness problem)' % stats['not_quiet'])
+    # executions that had to be ended (budget exhausted, threads dead) are judged by the monitor with the
+    # completeness claim applied (fin.wedged); their number is part of the evidence, never a machinery failure
     return out.finish()
